@@ -121,7 +121,7 @@ REGISTRY = {
               'Every dereference of a stage product is dominated by a presence guard raising AmpycloudError; a stage that '
               'overwrites a later stage\'s product refuses when it exists; no call-order refusal is reachable after a '
               'write to chunk state; each stage resets its own id column before reading it or the hit table as a whole. Holds for every call '
-              'sequence because it is a property of each method in every abstract state. A stage writes the id column of its own level only and leaves it resettable. Everything else a caller can invoke on a chunk (metar_msg, the properties) writes nothing of it.',
+              'sequence because it is a property of each method in every abstract state. A stage writes the id column of its own level only and leaves it resettable. Everything else a caller can invoke on a chunk (metar_msg, the properties) writes nothing of it; a stage table is never used as a condition; a stage writes tables and id columns only (no other instance state).',
               'Equality of recomputed tables rests on determinism (C09).'),
     'C15': _o('census and classification of the refusal conditions of check_data_consistency (own condition of every '
               'raise), ordering of normalisation steps, trigger/repair agreement',
@@ -161,7 +161,7 @@ REGISTRY = {
               'across its steps and its inverse switches segment at the images of the step edges (for 0..5 edges, '
               'symbolic edges and scales); convert_kwargs derives a parameter only when it is absent, only when scaling, '
               'and every result it returns for a scaling carries all the parameters that scaling needs (propositional '
-              'entailment over the guards); every routine scales when called without a mode; the interval derived for the min-max scaling encloses the data on every path (Farkas certificates over the path conditions); no scaling routine keeps anything between calls (module-level objects, memoisation); every segment of step scaling is written whatever the data; the forward and backward parameter sets handed to the plots are two objects with modes do / undo. That min-max scaling lands in [0, 1] numerically is not claimed.', A2 + 'scale > 0, max > min, step scales > 0 (A5).'),
+              'entailment over the guards); every routine scales when called without a mode; the interval derived for the min-max scaling encloses the data on every path (Farkas certificates over the path conditions); no scaling routine keeps anything between calls (module-level objects, memoisation); every segment of step scaling is written whatever the data; the forward and backward parameter sets handed to the plots are two objects with modes do / undo; data_rescaled passes its scaling parameters on as given. That min-max scaling lands in [0, 1] numerically is not claimed.', A2 + 'scale > 0, max > min, step scales > 0 (A5).'),
     'C20': _o('effect analysis of plot code (rcParams writers, figure lifecycle under `not show`, file writes under '
               '`save_stem is not None`), chunk read-only summaries, modulo rule on style-cycle subscripts, '
               'no-state-between-plots rule (memoised results never modified, no module-level writes on the plotting path), '
